@@ -53,8 +53,8 @@ impl Check for C09 {
     }
     fn runs(&self, tier: Tier) -> u64 {
         match tier {
-            Tier::Quick => 100_000,
-            Tier::Thorough => 5_000_000,
+            Tier::Quick => 1_500_000,
+            Tier::Thorough => 45_000_000,
         }
     }
 
